@@ -376,7 +376,13 @@ def check_locked(cfg, tier, seed, replay=None):
     model_ok = True
     make_out = ""
     with Lock():
-        tools_ok = build_tools(log, pid, cfg.get("harness", True) and not cfg.get("parts"))
+        # order matters: the translator also writes the harness' tables (harness/cmd/*/gen_*.go),
+        # so it runs before the harness is compiled
+        tools_ok = build_tools(log, pid, False)
+        translated = tools_ok and translate(cfg.get("gen", []), log)
+        if tools_ok and not translated:
+            problems.append({"kind": "translator", "detail": "go2coq failed", "output": log[-1][2][-3000:]})
+        tools_ok = tools_ok and build_tools(log, pid, cfg.get("harness", True) and not cfg.get("parts"))
         if tools_ok and cfg.get("parts"):
             import props as _props
             for part in cfg["parts"]:
@@ -388,8 +394,6 @@ def check_locked(cfg, tier, seed, replay=None):
             problems.append({"kind": "build", "detail": "translator or harness does not build against the current /repo tree",
                              "output": log[-1][2][-3000:]})
         else:
-            if not translate(cfg.get("gen", []), log):
-                problems.append({"kind": "translator", "detail": "go2coq failed", "output": log[-1][2][-3000:]})
             mts = list(cfg.get("model_targets", []))
             if cfg.get("parts"):
                 import props as _props
@@ -559,7 +563,8 @@ def check_locked(cfg, tier, seed, replay=None):
         "coverage": cov, "assumptions": cfg.get("assumptions", []),
         "wall_s": round(time.time() - t0, 2), "violations": 1 if violation else 0,
     }
-    evpath = os.path.join(VERIF, "evidence", pid + ".json") if not SUFFIX else os.path.join(outdir, "evidence.json")
+    # a run against a patched tree (bin/mutcheck) never overwrites the evidence of the real tree
+    evpath = os.path.join(VERIF, "evidence", pid + ".json") if not (SUFFIX or os.environ.get("VERIF_MUT")) else os.path.join(outdir, "evidence.json")
     json.dump(ev, open(evpath, "w"), indent=1, default=str)
     with open(os.path.join(outdir, "log.txt"), "w") as lf:
         for name, rc, out in log:
